@@ -283,6 +283,28 @@ def run(ctx):
     bterms, bidx = [], []
     for bi, (blocks_, l) in enumerate(zip(bmeta, bl)):
         ctx.count(("blockdiag", str(blocks_)), nontrivial=True)
+        evl = [x for x in l.split("\n") if x.startswith("EV ")]
+        l = "\n".join(x for x in l.split("\n") if not x.startswith("EV "))
+        # Envelope::set(const BlockDiagonal&): every entry of the block-diagonal matrix, nothing else (exact: small integers)
+        ntot = sum(d_ for d_, _, _ in blocks_)
+        want = [[0.0] * ntot for _ in range(ntot)]
+        o_ = 0
+        for (d_, w_, vals) in blocks_:
+            it = iter(vals)
+            for i in range(d_):
+                for j in range(i, min(d_, i + w_ + 1)):
+                    want[o_ + j][o_ + i] = float(next(it))
+            o_ += d_
+        okev = False
+        if evl:
+            tk = evl[0].split()
+            got = [float.fromhex(t) for t in tk[2:]]
+            okev = int(tk[1]) == ntot and got == [want[i][j] for i in range(ntot) for j in range(i + 1)]
+        ctx.hist("envelope of block diagonal", "equal" if okev else "different")
+        if not okev:
+            ctx.violation({"kind": "K:blockdiag-envelope", "blocks": blocks_, "output": (evl or [""])[0][:800], "expected_lower_triangle": want},
+                          "Envelope(BlockDiagonal) differs from the block-diagonal matrix (%d blocks, dims/bands %s)" % (len(blocks_), [(d_, w_) for d_, w_, _ in blocks_]))
+            continue
         if not l.startswith("F"):
             ctx.violation({"kind": "K:blockdiag", "blocks": blocks_, "output": l}, "BlockDiagonal::cholDec refused a positive definite matrix: %s" % l)
             continue
